@@ -76,8 +76,8 @@ TIMEOUT_CASE = 120
 # "vector and block-vector inputs".  Set to False to leave that class out of the workload.
 INCLUDE_SINGLE_COLUMN_PAD = True
 
-VEC_VARIANTS = ["f64", "f32", "int", "strided", "rev", "wide", "special", "f32strided", "f32rev"]
-BLK_VARIANTS = ["f64", "f32", "int", "forder", "strided", "wide", "special", "f32strided", "f32forder"]
+VEC_VARIANTS = ["f64", "f32", "int", "strided", "rev", "wide", "special", "f32strided", "f32rev", "f32be", "f64be"]
+BLK_VARIANTS = ["f64", "f32", "int", "forder", "strided", "wide", "special", "f32strided", "f32forder", "f32be", "f64be"]
 SCALES = ["default", "one", "float", "int", "npfloat"]
 PATHS = ["plain", "nested", "noext", "upper", "dots", "digits"]
 UPDATES = ["new", "inplace", "same"]
@@ -262,6 +262,10 @@ def _values(rng, shape, variant):
 
 def _make_array(rng, shape, variant):
     """An ndarray of the requested shape whose dtype / memory layout follows the variant."""
+    if variant in ("f32be", "f64be"):
+        # data read from another program's big-endian result file: the values are what counts, not their byte order
+        with np.errstate(all="ignore"):
+            return _values(rng, shape, "f64").astype(">f4" if variant == "f32be" else ">f8")
     if variant.startswith("f32"):
         # float32 data in every layout: a writer that skips the conversion for float32 input must still cope with views
         with np.errstate(all="ignore"):
@@ -504,7 +508,8 @@ def _attribute_vti_exception(pym, exc, dom, sigs, specs, dim, root, ctx):
                     lab += "/only-as-" + {"f32": "float32", "f32strided": "float32-strided-view", "f32rev": "float32-reversed-view",
                                           "f32forder": "float32-fortran-order", "forder": "fortran-order", "strided": "strided-view",
                                           "rev": "reversed-view", "int": "integer", "wide": "wide-range-values",
-                                          "special": "special-values", "f64": "float64"}[sp["variant"]]
+                                          "special": "special-values", "f64": "float64", "f32be": "big-endian-float32",
+                                          "f64be": "big-endian-float64"}[sp["variant"]]
                 except Exception:  # noqa: BLE001
                     pass
                 culprits.append((type(e2).__name__, lab, sp, e2))
